@@ -163,6 +163,8 @@ def classify(program: Program, call: ast.Call, target: str, func: Func) -> Tuple
             return "MUT", t
         if base.startswith("requests."):
             return "PURE", t
+        if base.startswith("lxml.builder.") and meth in ("set", "append", "extend", "insert", "get", "find", "findall", "iter", "remove", "clear", "addnext", "addprevious", "getparent", "items", "keys", "values"):
+            return "PURE", t  # in-memory element tree
         if meth in PURE_METHODS or meth in ("write", "replace", "clear", "append", "sort", "read", "close", "flush", "now", "start", "join"):
             # write/read on a non-file external object (e.g. a hash object) – only file handles come from open()
             if meth in ("write", "read", "close", "flush") and not base.startswith(("hashlib.", "xxhash.", "lxml.")):
